@@ -16,6 +16,10 @@ CHECKS = {
     'C06': ('symtex', 'all strings up to the length bound over all of Unicode, both tolerance modes: outcome is a tree or a diagnostic error on every feasible path', 'DESIGN.md §7 C06'),
     'C07': ('symtex', 'strict success implies an identical tolerant result, for all strings up to the length bound', 'DESIGN.md §7 C07'),
     'C08': ('symtex', 'alignment oracle (only blank runs before { or [ may disappear) discharged by z3 on every path of every parseable string up to the length bound', 'DESIGN.md §7 C08'),
+    'C09': ('symtex', 'command + bracket/brace groups with symbolic separators in 8 contexts: the set of attached groups, their exact text and the remaining text are compared with the one-line-break rule evaluated symbolically', 'DESIGN.md §7 C09'),
+    'C10': ('symtex', 'comment payloads (free characters and hostile prefixes) in 14 contexts: tree equals the tree of the benign-payload document; 0..4 backslashes before %', 'DESIGN.md §7 C10'),
+    'C11': ('symtex', 'verbatim bodies (free characters under the stated side conditions, hostile fragments) for built-in and symbolic user-chosen names: single raw leaf, nothing searchable, user name equals built-in behaviour', 'DESIGN.md §7 C11'),
+    'C12': ('symtex', 'every math kind x body template with symbolic math text (brackets/parentheses allowed), symbolic sizing delimiters, adjacent regions, escaped dollars, in 7 contexts: one math node of the right kind with the exact body', 'DESIGN.md §7 C12'),
     'C13': ('symtex', 'recorded positions of all nodes/tokens equal the offsets obtained by mirroring the serialisers (skeleton cover); char_pos_to_line on all strings over {letter, LF} up to the bound; search_regex offsets for a modelled regex family', 'DESIGN.md §7 C13'),
     'C16': ('symtex', 're-parse of the serialised text gives identical text and shape, for every parseable string up to the length bound', 'DESIGN.md §7 C16'),
     'C18': ('symtex', 'all operation sequences up to the depth bound on free-standing and owner-attached TexArgs against a Python list of the same objects; group contents symbolic so duplicates are chosen by the solver', 'DESIGN.md §7 C18'),
